@@ -9,14 +9,16 @@ from hypothesis import strategies as st
 from pbt import strategies as S
 from pbt.common import Stats, Sub, Violation
 from pbt.model import Model
-from pbt.sut import Converter, mk_records
+from pbt.sut import Converter, mk_record, mk_records
 
 PROPERTY_ID = "C17"
 RULE = (
     "Generated: strict converters with non-empty URL-safe CURIE prefixes / synonyms ([A-Za-z0-9._-], at least one "
     "alphanumeric, delimiter-free) and URL-shaped URI prefixes, delimiter ':' or '/'; requests GET "
     "/<prefix><delimiter><identifier> where identifiers are 1-4 non-empty path-safe segments (never '.' or '..') joined by "
-    "'/', optionally containing the delimiter; known canonical, known synonym, case-varied and unknown prefixes. Characters "
+    "'/', optionally containing the delimiter; known canonical, known synonym, case-varied and unknown prefixes; in a third of the cases some records are "
+    "registered only after the apps were built and had served every request once (the apps hold the converter by reference "
+    "and must serve it as it is at request time). Characters "
     "are limited to those neither Werkzeug's redirect nor Starlette's RedirectResponse percent-encodes, so Location is "
     "comparable byte for byte. One evaluation = one request sent to an in-process Flask test client and a Starlette "
     "TestClient (redirects not followed): known prefix -> 302 with Location == model expansion (split at the first "
@@ -67,7 +69,10 @@ def cases(draw, tier="quick"):
             if ident.endswith(":"):
                 ident += "z"  # keep the last segment non-empty
         reqs.append([p, ident])
-    return {"spec": {"delimiter": d, "records": recs}, "requests": reqs}
+    # "late": how many of the records (with all their synonyms) are registered only AFTER the apps have been built and
+    # have already served every request once - the apps must serve their converter as it is at request time
+    late = draw(st.sampled_from([0, 0, 1, 2]))
+    return {"spec": {"delimiter": d, "records": recs}, "requests": reqs, "late": min(late, n)}
 
 
 def check(case, stats: Stats) -> None:
@@ -77,12 +82,33 @@ def check(case, stats: Stats) -> None:
     spec = case["spec"]
     d = spec["delimiter"]
     recs = spec["records"]
-    conv = Converter(mk_records(recs), delimiter=d)
+    late = case.get("late", 0)
+    early = recs[: len(recs) - late] if late else recs
+    conv = Converter(mk_records(early), delimiter=d)
     model = Model(recs, d)
     with warnings.catch_warnings():
         warnings.simplefilter("ignore")
         flask_client = get_flask_app(conv).test_client()
         fast_client = TestClient(get_fastapi_app(conv))
+        if late:
+            early_model = Model(early, d)
+            for p, ident in case["requests"]:
+                if d in p or not ident or any(seg in ("", ".", "..") for seg in ident.split("/")):
+                    continue
+                path = "/" + p + d + ident
+                want = early_model.expand(p + d + ident)
+                exp = (302, want) if want is not None else (422, None)
+                r1 = flask_client.get(path, follow_redirects=False)
+                r2 = fast_client.get(path, follow_redirects=False)
+                if (r1.status_code, r1.headers.get("Location")) != exp or (r2.status_code, r2.headers.get("location")) != exp:
+                    raise Violation(f"GET {path!r} before the converter was extended: Flask {(r1.status_code, r1.headers.get('Location'))!r}, FastAPI {(r2.status_code, r2.headers.get('location'))!r}, expected {exp!r}")
+            for r in recs[len(recs) - late:]:
+                conv.add_record(mk_record({"prefix": r["prefix"], "uri_prefix": r["uri_prefix"]}))
+                for syn in r["prefix_synonyms"]:
+                    conv.add_prefix(syn, r["uri_prefix"], merge=True)
+                for syn in r["uri_prefix_synonyms"]:
+                    conv.add_record(mk_record({"prefix": r["prefix"], "uri_prefix": syn}), merge=True)
+            stats.cls("converter-extended-after-app-built")
         for p, ident in case["requests"]:
             if d in p or not ident or any(seg in ("", ".", "..") for seg in ident.split("/")):
                 continue  # outside the statement's domain (hand-written replay files)
@@ -113,5 +139,5 @@ def check(case, stats: Stats) -> None:
 
 SUBS = [
     Sub(name="resolver", check=check, strategy=lambda tier: cases(tier), n={"quick": 500, "thorough": 1200},
-        required_classes=("known", "unknown", "nt:identifier-contains-delimiter", "nt:identifier-contains-slash", "nt:synonym-prefix")),
+        required_classes=("known", "unknown", "nt:identifier-contains-delimiter", "nt:identifier-contains-slash", "nt:synonym-prefix", "converter-extended-after-app-built")),
 ]
